@@ -564,7 +564,7 @@ impl Engine for Redx {
         let thorough = ctx.tier == Tier::Thorough;
         vec![Stage {
             name: "random".into(),
-            cases: if thorough { 16 * 4000 } else { 16 * 120 },
+            cases: if thorough { 16 * 4000 } else { 16 * 300 },
             strategy: case(thorough),
         }]
     }
